@@ -4,7 +4,7 @@ the reference array each one denotes (computed by mc.refmodel, never by pyttb).
 descriptor forms (all values explicit or derived deterministically):
   {"kind":"tensor",   "shape":[..], "vals":[F-order] | "pat":[0/1..], "vseed":int, "grown":bool (built by growth), "dtype":str (storage dtype)}
   {"kind":"sptensor", ... same ..., "order":[perm of the stored nonzeros] | null}
-  {"kind":"ktensor",  "shape":[..], "rank":R, "weights":[..], "salt":int, "zero_col":[mode,col]|null}
+  {"kind":"ktensor",  "shape":[..], "rank":R, "weights":[..], "salt":int, "zero_col":[mode,col]|null, "fnorm":"unit"|absent}
   {"kind":"ttensor",  "shape":[..], "core_shape":[..], "core":"dense"|"sparse", "core_pat":[..]|null, "salt":int}
   {"kind":"sumtensor","parts":[descriptor, ...]}
 """
@@ -55,7 +55,20 @@ def ktensor_parts(d):
     zc = d.get("zero_col")
     if zc:
         fs[zc[0]][:, zc[1]] = 0.0
-    return np.array(w), fs
+    return np.array(w), _fnorm(fs, d)
+
+
+def _fnorm(fs, d):
+    """Optional column structure of the factor matrices ("fnorm": "unit" = every column divided by its 2-norm; the columns
+    stay correlated, values are no longer integers: use only where the oracle has a tolerance)."""
+    if d.get("fnorm") != "unit":
+        return fs
+    out = []
+    for f in fs:
+        f = np.array(f, dtype=float)
+        nrm = np.sqrt(np.sum(f * f, axis=0))
+        out.append(f / np.where(nrm > 0, nrm, 1.0))
+    return out
 
 
 def ttensor_parts(d):
@@ -66,7 +79,7 @@ def ttensor_parts(d):
     # small core values keep products exact
     cvals = [float(np.sign(v) * (1 + (abs(v) % 5))) if v else 0.0 for v in cvals]
     fs = [np.array(space.int_matrix(s, c, salt=salt + 3 * n, seed=d.get("vseed", 0))) for n, (s, c) in enumerate(zip(shape, cs))]
-    return cs, cvals, fs
+    return cs, cvals, _fnorm(fs, d)
 
 
 def ref_array(d):
